@@ -14,13 +14,14 @@ RULE = ("cases: `vpair <f> <g> <scriptSig> <scriptPubKey> <oracle bits> <witness
         "bare multisig, P2SH, P2WPKH, P2WSH, P2SH-P2WPKH, P2SH-P2WSH, unknown witness versions, pay-to-anchor) and their "
         "mutations (wrong hash, non-push or extra scriptSig, extra stack items, superfluous witness, oversized witness items), "
         "with inner scripts from the C12 grammar, plus every vector of script_tests.json under its own flags and single-flag "
-        "removals/additions, plus STANDARD flags against every GetBlockScriptFlags value. g is a random valid set, f removes one "
-        "flag or a random subset. Taproot spends under SCRIPT_VERIFY_TAPROOT are outside the model (TAPROOT is masked for them). "
+        "removals/additions, plus STANDARD flags against every GetBlockScriptFlags value, plus `tappair` lines: taproot script-path spends "
+        "of real trees built by the driver on the NUMS key (leaf scripts with and without OP_SUCCESSx, oversized arguments, annex, leaf "
+        "versions, broken commitments / control sizes). g is a random valid set, f removes one flag or a random subset. "
         "Non-trivial = the run under g succeeded or failed after evaluating at least one script; distinct = distinct case lines.")
 ASSUMPTIONS = ["the signature / locktime / sequence checker is an arbitrary function that does not depend on the flags (premise of the theorems; "
                "true of GenericTransactionSignatureChecker, which never sees the flags)",
                "valid flag combinations are those VerifyScript asserts: CLEANSTACK => P2SH and WITNESS, WITNESS => P2SH",
-               "taproot (witness v1, 32-byte program, not wrapped in P2SH, TAPROOT flag set) is outside the model: the theorem's premise is that the run under the larger flag set is inside the model",
+               "the taproot commitment check (tapleaf hash, Merkle path, key tweak) is an arbitrary oracle that does not see the flags; in the correspondence it is true for the control blocks TaprootBuilder produces and false after a bit flip / truncation / for random bytes",
                "the models of EvalScript / VerifyScript are hand transcriptions tied by the correspondence (C12 and this check)"]
 TRUSTED = ["Coq 8.16.1 kernel (coqc; vm_compute for the flag-set inclusions over generated constants)",
            "tie/params/script.h: flag bit positions, STANDARD/MANDATORY flag sets and every value of GetBlockScriptFlags (all deployment boundaries x all script_flag_exceptions) printed from the compiled tree",
@@ -61,8 +62,6 @@ def is_taproot_spk(spk):
 
 
 def vpair(f, g, ssig, spk, obits, wit, B):
-    if is_taproot_spk(spk):
-        f &= ~(1 << B["TAPROOT"]); g &= ~(1 << B["TAPROOT"])
     return "vpair %d %d %s %s %d %d%s" % (f, g, hx(ssig), hx(spk), obits, len(wit), "".join(" " + hx(e) for e in wit))
 
 
@@ -173,6 +172,21 @@ def gen(rng, tier):
         # policy vs consensus: standard flags against a block's flags
         bf = rng.choice(blocks)
         c.append(vpair(bf, std, ssig, spk, ob, wit, B))
+    # taproot script-path / key-path spends of real trees (built by the driver), under pairs of flag sets
+    n = 700 if tier == "quick" else 20000
+    must = (1 << B["P2SH"]) | (1 << B["WITNESS"])
+    for _ in range(n):
+        script, a = rng.choice([(op("1"), []), (op("DROP") + op("1"), [b"\x01"]), (op("NOP1") + op("1"), []), (op("IF") + op("1") + op("ELSE") + op("1") + op("ENDIF"), [b"\x02"]),
+                                (push(bytes(33)) + op("CHECKSIG"), [b"\x01"]), (push(bytes(32)) + op("CHECKSIGVERIFY") + op("1"), [b"\x01"]), (C12.rand_block(rng, 0, 2), [G.rand_num_bytes(rng)])])
+        if rng.random() < 0.5:
+            ops = G.parse_ops(script)
+            pos = rng.randrange(len(ops) + 1)
+            script = b"".join(o[2] for o in ops[:pos]) + bytes([rng.choice(C12.OP_SUCCESS)]) + b"".join(o[2] for o in ops[pos:])
+        args = rng.choice([a, a, [bytes(521)] + a[1:] if a else [bytes(521)], [b"\x01"] * 1001])
+        g = fix_valid(G.rand_flags(rng, NFLAGS) | (must if rng.random() < 0.85 else 0) | ((1 << B["TAPROOT"]) if rng.random() < 0.8 else 0), B)
+        for (f, g2) in flag_pairs(rng, B, g=g, k=2):
+            c.append("tappair %d %d %d %d %s %d %d %d %s %d%s" % (f, g2, rng.choice([0xc0, 0xc0, 0xc2]), rng.choice([0, 1]), hx(script), rng.choice([0, 0xffffffff, rng.getrandbits(32)]),
+                                                                 rng.choice([1, 1, 1, 0]), rng.choice([0, 0, 0, 1, 32]), rng.choice(["x", "x", "50"]), len(args), "".join(" " + hx(e) for e in args)))
     for (ssig, spk, wit) in templates(rng, B, tier) + std_templates(rng):
         for bf in blocks:
             c.append(vpair(bf, std, ssig, spk, 0xffffffff, wit, B))
@@ -206,7 +220,7 @@ def std_templates(rng):
 
 def shrink(case):
     w = case.split(" ")
-    if w[0] != "vpair":
+    if w[0] not in ("vpair", "tappair"):
         return
     f, g = int(w[1]), int(w[2])
     # drop flags common to both sets
@@ -218,9 +232,10 @@ def shrink(case):
     if len(diff) > 1:
         for b in diff:
             yield " ".join([w[0], str(f), str(g & ~(1 << b))] + w[3:])
-    n = int(w[6])
+    k = 6 if w[0] == "vpair" else 10
+    n = int(w[k])
     for i in range(n):
-        yield " ".join(w[:6] + [str(n - 1)] + w[7:7 + i] + w[8 + i:])
+        yield " ".join(w[:k] + [str(n - 1)] + w[k + 1:k + 1 + i] + w[k + 2 + i:])
 
 
 TIES = [Tie("verifyscript_flag_pairs", "tie/drivers/script_drv.cpp", "Extract_Script.v", "script_driver.ml", gen,
@@ -234,9 +249,9 @@ LEVEL_TEXT = ("Coq theorems over the modelled interpreter (every EvalScript opco
               "under the policy flags verifies under the next block's flags. Tied to the real VerifyScript by differential execution on pairs "
               "of flag sets, where the property itself is also evaluated on the implementation's results (and each call is repeated to check "
               "determinism).")
-LEVEL_NOTE = ("Named residue: taproot spends under SCRIPT_VERIFY_TAPROOT (key path, script path, OP_SUCCESSx, tapscript dispatch) are outside the "
-              "VerifyScript model; for them the soft-fork relation rests on the C12 tapscript EvalScript model plus correspondence only, and the "
-              "generator masks TAPROOT on taproot-shaped outputs. The theorem needs no exception among the 21 flags: none was found for which "
+LEVEL_NOTE = ("Taproot is inside the model (annex, key path / script path, control-block size rule, leaf versions, OP_SUCCESSx pre-scan, validation "
+              "weight); named residue: the commitment check itself (ComputeTapleafHash / ComputeTaprootMerkleRoot / CheckTapTweak) is an oracle, and the "
+              "real signature checkers are an oracle (C10). The theorem needs no exception among the 21 flags: none was found for which "
               "monotonicity fails on valid combinations (CLEANSTACK without P2SH+WITNESS and WITNESS without P2SH are the combinations the "
               "code itself asserts away; for them monotonicity would indeed fail, e.g. {CLEANSTACK} vs {CLEANSTACK,P2SH}). Determinism is "
               "definitional for the model and checked for the implementation by calling VerifyScript twice per case. Trusted: Coq kernel, "
